@@ -194,7 +194,7 @@ def group_name(pol, scan):
 
 def build_product(level="1.5", images=(("HH", None, 5, 4),), seed=0, leader=None, nfp=None, scene_id="ALOS2014410740-140829",
                   product_id=None, ctx=None, overrides=None, line_overrides=None, summary_extra=None, plan=None,
-                  pixel_special=True, blank=None):
+                  pixel_special=True, blank=None, kind=None, sample=None, salt_base=None):
     """build a complete product.
 
     images: sequence of (pol, scan|None, n_lines, n_pixels)
@@ -204,7 +204,12 @@ def build_product(level="1.5", images=(("HH", None, 5, 4),), seed=0, leader=None
     """
     ctx = dict(ctx or {})
     tables = L.tables()
-    kind, bps, type_code = LEVELS[level]
+    lkind, bps, type_code = LEVELS[level]
+    kind = kind or lkind  # line-record type (prefix length) and sample type are independent in the format
+    if sample is not None:
+        type_code = sample
+        bps = {"C*8": 8, "IU2": 2}[sample]
+    skind = "signal" if type_code == "C*8" else "processed"  # which sample encoder to use
     if product_id is None:
         product_id = {"1.1": "WWDR1.1__D", "1.5": "WBDR1.5RUD", "3.1": "FBDR3.1GUA"}[level]
     b = Built()
@@ -264,10 +269,10 @@ def build_product(level="1.5", images=(("HH", None, 5, 4),), seed=0, leader=None
     # images
     for i, (pol, scan, n, p) in enumerate(images):
         name = image_filename(pol, scene_id, product_id, scan)
-        fb = FileBuilder(L.instance(file="image", kind=kind, n=n, ndata=p * bps))
+        fb = FileBuilder(L.instance(file="image", kind=kind, n=n, ndata=p * bps, bps=bps))
         fill(fb, name)
-        salt = 1 + (seed * 7919 + i * 104729) % 60000
-        rows, raw = pixel_bytes(kind, n, p, salt, special=pixel_special)
+        salt = (1 + (seed * 7919 + i * 104729) % 60000) if salt_base is None else salt_base + i * 1000
+        rows, raw = pixel_bytes(skind, n, p, salt, special=pixel_special)
         for ln in range(n):
             fb.put(1, "data", rows[ln], line=ln)
         for (ii, ln, path), v in line_overrides.items():
@@ -275,7 +280,7 @@ def build_product(level="1.5", images=(("HH", None, 5, 4),), seed=0, leader=None
                 fb.put(1, path, v, line=ln)
         b.builders[name] = fb
         b.files[name] = None
-        b.images.append(dict(name=name, group=group_name(pol, scan), kind=kind, n=n, p=p, bps=bps, salt=salt,
+        b.images.append(dict(name=name, group=group_name(pol, scan), kind=skind, linekind=kind, n=n, p=p, bps=bps, salt=salt,
                              prefix=fb.inst["records"][1]["len"] - p * bps, raw=raw, type_code=type_code, pol=pol,
                              scan=scan))
         names.append(name)
